@@ -231,12 +231,16 @@ func (c16) Run(x *Exec, scn any) {
 			switch op.Op {
 			case "refreshA":
 				pv, pst = call(func() { err = log.Refresh(c16Config("A", s.Style, s.WidthA).Render()) })
+				pst = panicSite(pst)
 			case "refreshB":
 				pv, pst = call(func() { err = log.Refresh(c16Config("B", s.Style, 0).Render()) })
+				pst = panicSite(pst)
 			case "refreshBadEarly", "refreshBadLate":
 				pv, pst = call(func() { err = log.Refresh(c16Bad(op.Arg, s.Style)) })
+				pst = panicSite(pst)
 			case "destroy":
 				pv, pst = call(log.Destroy)
+				pst = panicSite(pst)
 			case "log":
 				seq++
 				sb := emit(0, seq, m.tags[op.Arg], op.Arg, EvOp{Kind: 14, Size: 3}, levelByName(op.Level))
